@@ -32,6 +32,35 @@ CLAIMED = {
                 "utf8parse is transcribed and tied by correspondence only.",
         "technique": "Coq proof (table = by-range spec by kernel enumeration; parser refinement) + translator + differential correspondence",
     },
+    "C11": {
+        "text": "Coq theorems about a hand model of anstyle_git::parse / parse_color (split_whitespace, lower-casing, keyword arms, colour names, '#' words with byte "
+                "length, ASCII-hex check, byte slicing that can panic, u8::from_str_radix / parse::<u8> as std defines them) against an independent grammar and denotation "
+                "(Spec/GitSyntax.v): model = spec for every input string wherever the statement decides (accept with the denoted style, or the error naming the first "
+                "offending word), grammar acceptance in generative form (any letter case, any White_Space layout), unknown-word / extra-colour / bad '#' word rejection, "
+                "no panic for all inputs, print-parse round trip for every expressible style. The keyword and colour-name arms are translated from lib.rs on every run. "
+                "Tie: differential execution of the real crate vs the extracted model and spec (exhaustive vocabulary combinations and '#' words, grammar, mutants, "
+                "near-miss numbers, Unicode), plus a scan of all of char for std's White_Space set and lower-case exceptions.",
+        "design_ref": "DESIGN.md section 6, C11",
+        "note": "Left open by the statement and excluded by an explicit hypothesis / from the generators: '+'-prefixed numbers (accepted by Rust), words spelt with U+212A or U+0130 "
+                "(Unicode lower case holds an ASCII letter; the model lower-cases ASCII only). Trusted: Coq kernel, translator (tools/gen_text.py), extraction, OCaml driver "
+                "(incl. UTF-8 decoding of case inputs), Rust harness; the Rust std operations are transcribed in Model/Text.v and tied by correspondence.",
+        "technique": "Coq proof (model = spec for all strings; finite table facts by kernel enumeration) + translator + differential correspondence",
+    },
+    "C12": {
+        "text": "Coq theorems about a hand model of anstyle_ls::parse (early return on \"\", \"0\", \"00\"; split(';') with all-or-nothing parse::<u8>; the VecDeque loop "
+                "with pop_front look-ahead for 38/48/58 and break on truncation) against an independent left-to-right SGR semantics written from ECMA-48 / xterm "
+                "(Spec/SgrCodes.v): for every well-formed code list of any length, printed with any number of leading zeros, parse = fold of the SGR codes over the default "
+                "style (None exactly for \"0\"/\"00\"); rejection of every list with an empty field, a non-digit or a value above 255; no panic; and model = spec for every "
+                "input string wherever the statement decides. The ~60 match arms are translated from lib.rs on every run and checked against the spec code by code by kernel "
+                "enumeration. Tie: differential execution of the real crate vs extracted model and spec (all lists of <= 2 (quick) / 3 (thorough) atoms over 0..=110 plus "
+                "extended forms, random well-formed lists, malformed inputs).",
+        "design_ref": "DESIGN.md section 6, C12",
+        "note": "Left open by the statement: '+'-prefixed fields (accepted by Rust's parse::<u8>) and 38/48/58 not followed by a complete ;5;n / ;2;r;g;b form (the crate "
+                "stops there and keeps the style so far); both are outside the theorems' domain by explicit hypotheses, the spec side answers N/A, model = code is still "
+                "compared. Trusted: Coq kernel (vm_compute), translator (tools/gen_text.py), extraction, OCaml driver, Rust harness; str::split / parse::<u8> transcribed in "
+                "Model/Text.v and tied by correspondence.",
+        "technique": "Coq proof (parse = left fold for all code lists; per-code table facts by kernel enumeration) + translator + differential correspondence",
+    },
 }
 
 NOT_YET = {
